@@ -126,6 +126,24 @@ def run_check(prop, tier, seed):
     known = load_known()
     new, attributed = [], {}
     seen = set()
+    # re-confirm every open finding of this property with its recorded probe history
+    for f in known.open_findings(prop):
+        pr = f.get("probe")
+        if not pr:
+            continue
+        from . import core
+        try:
+            rr = core.replay(cls, pr["cfg"], pr["ops"], pr.get("seed", 0))
+        except Exception as e:
+            harness_errors.append("probe of %s failed: %r" % (f["id"], e))
+            continue
+        if rr.violation is not None:
+            entry = {"property": prop, "seed": pr.get("seed", 0), "hashseed": "0", "cfg": pr["cfg"],
+                     "ops": pr["ops"], "signature": rr.violation.signature, "detail": rr.violation.detail,
+                     "facts": rr.violation.facts, "count": 1, "probe": True}
+            violations.append(entry)
+        else:
+            print("NOTE: known finding %s no longer reproduces with its recorded probe" % f["id"])
     for v in violations:
         key = json.dumps(v["signature"])
         fid = known.attribute(prop, v)
